@@ -135,7 +135,42 @@ def rule_v1(ctx):
     fid = f["id"]
     succ, region = _region(body, {INNER: "If"})
     muxes = [(b, body.term(b)) for b in sorted(region) if body.term(b)["k"] == "call" and mir.callee(body.term(b)) == C02.PUSH_MUX]
+    # the same loop written with an adaptor: `then.iter().zip(else.iter()).map(|(t, f)| circuit.push_mux(cond, *t, *f)).collect()`
+    in_closures = False
     if not muxes:
+        for b in sorted(region):
+            for st in body.blocks[b]["stmts"]:
+                clo = st["rv"].get("closure") if st["k"] == "assign" and st["rv"]["k"] == "aggregate" else None
+                if not clo or not ctx.has_fn(clo):
+                    continue
+                cb = ctx.body(clo)
+                items = ctx.closure_item_sources(clo)
+                for mb, mt in cb.calls():
+                    if mir.callee(mt) != C02.PUSH_MUX or not items:
+                        continue
+                    in_closures = True
+                    pb, src = items
+                    roles = []
+                    for a in mt["args"][1:4]:
+                        rs = set()
+                        if a["k"] in ("copy", "move"):
+                            for (ff, r, p) in ctx.lifted_trace(cb, a):
+                                if ff == fid:
+                                    # captured from the arm: which child produced it
+                                    if r[0] == "call" and r[2] == fid:
+                                        for (r2, p2) in body.trace_operand(body.term(r[1])["args"][0]):
+                                            if r2 == SELF1 and len(p2) >= 3 and p2[0] == "inner" and p2[1] == "as If":
+                                                rs.add(p2[2])
+                                elif ff == clo and r[0] == "arg":
+                                    for pre, op in src.items():
+                                        if tuple(p[:len(pre)]) == pre:
+                                            rs |= _children(body, op, "If", fid, deep=True)
+                        roles.append(rs)
+                    if roles == [{"0"}, {"1"}, {"2"}]:
+                        res.ok({"construct": "If", "verdict": "push_mux(condition, then item, else item) inside the closure of an adaptor over zip(then, else)"})
+                    else:
+                        res.bad(Finding("V1", fid, "if result merged from the wrong children", "expected push_mux(wire of the condition, wire of the then branch, wire of the else branch); found children %s" % roles, mt["sp"]))
+    if not muxes and not in_closures:
         res.bad(Finding("V1", fid, "if without a result mux", "the If arm never merges the two branch results with push_mux", f["sp"]))
     for b, t in muxes:
         roles = [_children(body, a, "If", fid) for a in t["args"][1:4]]
